@@ -158,6 +158,8 @@ func newEmptyDirectory(ctx context.Context, name string, p parent, dserv ipld.DA
 
 // GetCidBuilder gets the CID builder of the root node
 func (d *Directory) GetCidBuilder() cid.Builder {
+	d.lock.Lock()
+	defer d.lock.Unlock()
 	return d.unixfsDir.GetCidBuilder()
 }
 
@@ -190,6 +192,8 @@ func (d *Directory) opContext() (context.Context, context.CancelFunc) {
 
 // SetCidBuilder sets the CID builder
 func (d *Directory) SetCidBuilder(b cid.Builder) {
+	d.lock.Lock()
+	defer d.lock.Unlock()
 	d.unixfsDir.SetCidBuilder(b)
 }
 
